@@ -24,7 +24,7 @@ MANIFEST = {
 THEOREMS = {
     "C19": ["Named.C19_detect_partial", "Named.C19_detect_named_only", "Named.C19_detect_false_negative",
             "Named.C19_detect_false_negative_close", "Named.C19_detect_false_positive",
-            "Named.C19_positional_partial", "Named.C19_one_key_per_field_partial", "Named.C19_positional_counter",
+            "Named.C19_positional_partial", "Named.C19_positional_iff", "Named.C19_one_key_per_field_partial", "Named.C19_positional_counter",
             "Named.C19_positional_counter_text", "Named.C19_split_join", "Named.C19_split_counter",
             "Named.C19_split_bordered_counter", "Named.C19_genFormat", "Named.C19_pairs", "Named.C19_pairs_exact_partial", "Named.C19_statement_partial",
             "Named.C19_statement_unnamed_partial", "Named.fmtSubst_render",
